@@ -14,12 +14,20 @@ if rnd >= 3:
     for m in sorted(glob.glob(f"/verif/seeded/{pid}-*/meta.json")):
         ideas.append("   - " + json.load(open(m)).get("needs", ""))
     tried = ("\nALREADY TRIED by earlier rounds (what each change needed in order to show up) — propose changes of a DIFFERENT kind, in different functions where possible:\n" + "\n".join(ideas) + "\n")
+kinds8 = "" if rnd < 8 else (" Kinds that earlier rounds have used LITTLE and that you should prefer where they fit this property: "
+  "what state an object is left in when a call FAILS midway (partial writes before an error return, a half-built result handed back with the error, an error swallowed on one path); "
+  "behaviour that depends on map iteration order, on the wall clock or on time zones; the difference between nil and empty (slices, maps, pointers) on paths where only one of them is usual; "
+  "conversions between int, int32, uint32, int64, uint64 at values of 2^31 and above, and arithmetic that overflows only for such values; "
+  "string handling (case, whitespace, non-ASCII / invalid UTF-8, leading zeros, '+' signs, hex with odd length) in text formats; "
+  "unusual but legal ORDERS of API calls (the same setter twice, use of an object after a call on it returned an error, building in a different order than the tests do, reusing a result as the next argument); "
+  "a change in a SHARED helper (byte manipulation, varint, push-data, hashing helpers) whose effect shows only through this property's entry points; "
+  "a refactor that merges two near-identical code paths and keeps the behaviour of only one of them. ")
 extra = "" if rnd == 1 else ("(later round — other engineers have already tried the obvious one-line boundary flips, dropped nil guards and swapped masks; look for SUBTLER ones: two cooperating sites that each look fine alone, state that leaks between calls or between the steps of a multi-step sequence, shared buffers, order-of-evaluation changes, behaviour that differs only for a rarely used flag / era / format / hash type / call path, integer-width or sign edge cases, caching, refactors that lose a special case) ")
 print(f"""You are a careful adversarial engineer. Below is a semantic property that the Go library libsv/go-bt (Bitcoin SV transactions + script interpreter) is supposed to satisfy. You have your own scratch git worktree of the library at /tmp/seed_{pid} (work ONLY there and under {demo}; do not look at or touch /repo, /verif or any other directory; no network). Per shell call first run: export GOFLAGS=-mod=mod GOPROXY=off GOSUMDB=off GOTOOLCHAIN=local
 
 PROPERTY
 {txt}{tried}
-TASK {extra}: produce THREE different, independent, realistic code changes (bugs a maintainer could plausibly introduce: an off-by-one at a boundary, a dropped guard, a wrong mask, a swapped order, an optimisation that shares a buffer, a refactor that loses a special case, two sites that each look fine alone…) to the library source, each of which BREAKS the property while (a) the library still compiles, and (b) the library's existing test suite still passes completely: `cd /tmp/seed_{pid} && go test -mod=mod -vet=off -count=1 ./...` must print no FAIL. Prefer changes that need something specific to manifest — an unusual input, a particular boundary value, a multi-step sequence, a rarely used flag or code path — rather than ones ordinary use would expose at once; they must not be caught by the existing tests. Do not change any *_test.go file or test data. Each change should be small (a few lines) and touch only non-test .go files of the library.
+TASK {extra}{kinds8}: produce THREE different, independent, realistic code changes (bugs a maintainer could plausibly introduce: an off-by-one at a boundary, a dropped guard, a wrong mask, a swapped order, an optimisation that shares a buffer, a refactor that loses a special case, two sites that each look fine alone…) to the library source, each of which BREAKS the property while (a) the library still compiles, and (b) the library's existing test suite still passes completely: `cd /tmp/seed_{pid} && go test -mod=mod -vet=off -count=1 ./...` must print no FAIL. Prefer changes that need something specific to manifest — an unusual input, a particular boundary value, a multi-step sequence, a rarely used flag or code path — rather than ones ordinary use would expose at once; they must not be caught by the existing tests. Do not change any *_test.go file or test data. Each change should be small (a few lines) and touch only non-test .go files of the library.
 
 For each change i = 1..3:
  1. start from a clean worktree (`git -C /tmp/seed_{pid} checkout -- .`), make the change, save it as {demo}/change{{i}}.diff (`git -C /tmp/seed_{pid} diff > ...`);
